@@ -27,6 +27,7 @@ type Engine struct {
 	closureIDs  map[string]*Closure
 	iptrs       map[string]*Ptr
 	addrTaken   []*atField
+	noMerge     bool
 	addrTakenKeys []string
 	prov        map[string]guardTag
 	initWriters map[string]bool
@@ -173,7 +174,7 @@ type UnitResult struct {
 
 func (e *Engine) NewUnit(fn *ssa.Function, fs *FuncSpec) *Unit {
 	u := &Unit{eng: e, pkg: e.pkg, fn: fn, fs: fs, decls: NewDecls(), loops: map[*ssa.BasicBlock]*Loop{}, heapSorts: map[string]Sort{},
-		assumed: map[string]bool{}, autoInlined: map[string]bool{}, callOrd: map[string]int{}, pdoms: map[*ssa.Function]map[*ssa.BasicBlock]*ssa.BasicBlock{}, lastArgTypes: map[string][]types.Type{}, sliceArr: map[string]string{}, arrayOfCache: map[string]T{}, defOf: map[string]string{}, noMerge: os.Getenv("EBU_NOMERGE") != ""}
+		assumed: map[string]bool{}, autoInlined: map[string]bool{}, callOrd: map[string]int{}, pdoms: map[*ssa.Function]map[*ssa.BasicBlock]*ssa.BasicBlock{}, lastArgTypes: map[string][]types.Type{}, sliceArr: map[string]string{}, arrayOfCache: map[string]T{}, defOf: map[string]string{}, noMerge: os.Getenv("EBU_NOMERGE") != "" || e.noMerge}
 	if fs != nil {
 		u.props = fs.Props
 	}
